@@ -11,9 +11,10 @@ open PVal (toFloat? seqItems? prevItems prevFields dictGet dictSet isNone given 
 
 variable {F : Type} [FloatOps F] [LawfulFloatOps F]
 
-/-- every grid value of every scaled type in the tree snaps to itself (`round((k*scale)/scale) = k`);
-holds over `Rat`; for binary64 it can fail for grid indices beyond 2^53 -/
-def GridAllScaled (scale : F) : Prop := ∀ x, OnGrid scale x → isFinite x = true → snap scale x = some x
+/-- snapping is idempotent for every scaled type in the tree: a finite value that came out of `snap`
+(`round(x/scale)*scale`) snaps to itself; holds over `Rat`; for binary64 it could fail only for grid indices
+beyond 2^53 -/
+def GridAllScaled (scale : F) : Prop := ∀ x y, snap scale x = some y → isFinite y = true → snap scale y = some y
 
 mutual
 def GridAll : DType F → Prop
@@ -90,11 +91,16 @@ theorem intCall_idem {v : PVal F} {i : Int} (h : intCall v = .ok i) : intCall (F
   obtain ⟨y, hy⟩ := hy
   simp only [intCall, hy]
 
+theorem scaledCall_snap {scale : F} {v : PVal F} {r : F} (h : scaledCall scale v = .ok r) :
+    ∃ x, toFloat? v = some x ∧ snap scale x = some r ∧ isFinite r = true := by
+  obtain ⟨x, k, y, hx, hk, hy, hr, hf⟩ := scaledCall_ok h
+  refine ⟨x, hx, ?_, hf⟩
+  simp only [snap, hk, ofGrid, hy, hr]
+
 theorem scaledCall_idem {scale : F} (hp : DType.positive scale = true) (hg : GridAllScaled scale) {v : PVal F}
     {r : F} (h : scaledCall scale v = .ok r) : scaledCall scale (.float r) = .ok r := by
-  obtain ⟨k, hk⟩ := scaledCall_ofGrid h
-  obtain ⟨_, _, _, _, _, _, _, hf⟩ := scaledCall_ok h
-  exact scaledCall_self (scaledCall_canon hp h) (hg r ⟨k, hk ▸ isSome_self r⟩ hf) hf
+  obtain ⟨x, _, hsn, hf⟩ := scaledCall_snap h
+  exact scaledCall_self (scaledCall_canon hp h) (hg x r hsn hf) hf
 
 theorem conv_notNone (m : Mode) (dt : DType F) (v : PVal F) (prev : Option (PVal F)) (r : PVal F)
     (h : conv m dt v prev = .ok r) : isNone r = false := by
